@@ -39,6 +39,12 @@ type c05In struct {
 	// the default -1, Build computes it). It is documented as a capacity hint only: the answers are those of
 	// the model, which has no such parameter. order: the second router gets the hint, the first the default.
 	Hint *int `json:"hint,omitempty"`
+	// tab / look / order: the caller keeps ONE []Record (a route table held by the application) and gives it to
+	// Build more than once: Reuse = the number of earlier Builds (each on a fresh Router, thrown away) the slice went
+	// through before the Build(s) of the case. order with Reuse > 0: the first router is built from the slice, the
+	// second from a permuted copy of the slice made AFTER the first Build (what a route-table rebuild or an
+	// order-independence test does). Build is a function of the pattern set: the answers are those of the model.
+	Reuse int `json:"reuse,omitempty"`
 	// mux: request i as the client spelled it on the wire (request target, percent-escapes and all), parsed
 	// the way net/http parses a request line (url.ParseRequestURI: URL.Path decoded, URL.RawPath set when the
 	// spelling is not the canonical one). Empty or not decoding to Paths[i]: the request carries URL.Path only.
@@ -108,7 +114,11 @@ func (c05) Rule() string {
 		"('/' as %2F, letters, '-', '.', lower-case hex; URL.RawPath set), 8 more requests per case instantiate a key with values holding an escaped separator, '%', space, non-ASCII; one enumerated table asked for with every single byte of " +
 		"an instantiation escaped in turn; expected answer = the model's for the decoded URL.Path. One parameter text in six (every generator family that draws texts) is a value with a STRUCTURE that path-handling code is tempted to refuse or clean: " +
 		"dot segments and look-alikes (.. . ... ..x x.. .hidden %2e%2e ..; back slashes, ~user, null, file names), for a catch-all 1-4 such segments or plain words joined by '/', now and then with a leading, trailing or doubled '/'; " +
-		"enumerated: a file-server-like table (/static/*filepath, /api/v1/files/*path, /:tenant/assets/*rest, /static/css/:name, /dl/:a/:b, /static, /) against every text of 1-3 segments over {.. . ... ..x a <empty>} behind every literal prefix, also through the Mux handler. Non-trivial: a table with a parameterised key and at least one lookup that is found with parameters or contains a reserved byte."
+		"enumerated: a file-server-like table (/static/*filepath, /api/v1/files/*path, /:tenant/assets/*rest, /static/css/:name, /dl/:a/:b, /static, /) against every text of 1-3 segments over {.. . ... ..x a <empty>} behind every literal prefix, also through the Mux handler. " +
+		"Records given to Build more than once: every other order case builds its second router from a permuted copy of the caller's []Record made after the first Build, one tab/look case in four and two chunks of each byte-enumeration table " +
+		"are built from a slice that went through one or two earlier Builds of other routers (Build is a function of the pattern set; answers = the model's). 1 case in 20 'ambig' (+ enumerated full tables of 4, 5, 6 levels) = tables that are ambiguous " +
+		"level after level: on each of 3-6 (1 in 5: 8-12, sparse) consecutive levels both a literal and a ':param' continue, the patterns are all or a subset of the 2^d words, told apart by a last segment of their own / by shared last segments / not at all; " +
+		"paths: the literals on every level + each pattern's tail (exactly that pattern matches, after up to 2^d - 1 failed parameter branches), instantiations with the level's literal or another word as the value, paths nobody matches, prefixes. Non-trivial: a table with a parameterised key and at least one lookup that is found with parameters or contains a reserved byte."
 }
 
 func (c05) Decode(raw json.RawMessage) (any, error) {
@@ -136,14 +146,18 @@ func c05Lookup(rt *denco.Router, path string) (a c05Ans) {
 	return a
 }
 
-func c05Build(keys []string, order []int, hint ...*int) (rt *denco.Router, errText, panicText string) {
+func c05Records(keys []string, order []int) []denco.Record {
 	recs := make([]denco.Record, 0, len(keys))
 	for _, i := range order {
 		recs = append(recs, denco.NewRecord(keys[i], i))
 	}
+	return recs
+}
+
+func c05BuildRecs(recs []denco.Record, hint *int) (rt *denco.Router, errText, panicText string) {
 	rt = denco.New()
-	if len(hint) > 0 && hint[0] != nil {
-		rt.SizeHint = *hint[0]
+	if hint != nil {
+		rt.SizeHint = *hint
 	}
 	p, msg := recoverTo(func() {
 		if err := rt.Build(recs); err != nil {
@@ -154,6 +168,28 @@ func c05Build(keys []string, order []int, hint ...*int) (rt *denco.Router, errTe
 		panicText = msg
 	}
 	return rt, errText, panicText
+}
+
+// c05Rebuilt gives the caller's slice to n Builds of routers that are thrown away.
+func c05Rebuilt(recs []denco.Record, n int) {
+	for ; n > 0; n-- {
+		c05BuildRecs(recs, nil)
+	}
+}
+
+func c05Build(keys []string, order []int, hint ...*int) (rt *denco.Router, errText, panicText string) {
+	var h *int
+	if len(hint) > 0 {
+		h = hint[0]
+	}
+	return c05BuildRecs(c05Records(keys, order), h)
+}
+
+// c05BuildCase: the Build of a tab / look case, on a slice that went through in.Reuse earlier Builds.
+func c05BuildCase(keys []string, in c05In) (rt *denco.Router, errText, panicText string) {
+	recs := c05Records(keys, c05Iota(len(keys)))
+	c05Rebuilt(recs, in.Reuse)
+	return c05BuildRecs(recs, in.Hint)
 }
 
 func c05Iota(n int) []int {
@@ -170,7 +206,7 @@ func (c05) Run(in0 any) any {
 	keys := bsList(in.Pats)
 	switch in.Kind {
 	case "tab":
-		rt, e, p := c05Build(keys, c05Iota(len(keys)), in.Hint)
+		rt, e, p := c05BuildCase(keys, in)
 		obs.BuildErr, obs.BuildPanic = e, p
 		if e != "" || p != "" {
 			return obs
@@ -189,7 +225,7 @@ func (c05) Run(in0 any) any {
 			obs.Ans = append(obs.Ans, c05Lookup(rt, string(path)))
 		}
 	case "look":
-		rt, e, p := c05Build(keys, c05Iota(len(keys)), in.Hint)
+		rt, e, p := c05BuildCase(keys, in)
 		obs.BuildErr, obs.BuildPanic = e, p
 		if e != "" || p != "" {
 			return obs
@@ -198,8 +234,22 @@ func (c05) Run(in0 any) any {
 			obs.Ans = append(obs.Ans, c05Lookup(rt, string(path)))
 		}
 	case "order":
-		rt1, e1, p1 := c05Build(keys, c05Iota(len(keys)))
-		rt2, e2, p2 := c05Build(keys, in.Perm, in.Hint)
+		var rt1, rt2 *denco.Router
+		var e1, p1, e2, p2 string
+		if in.Reuse > 0 {
+			// one slice held by the caller: earlier Builds, the first router, then a permuted copy for the second
+			recs := c05Records(keys, c05Iota(len(keys)))
+			c05Rebuilt(recs, in.Reuse-1)
+			rt1, e1, p1 = c05BuildRecs(recs, nil)
+			recs2 := make([]denco.Record, 0, len(recs))
+			for _, i := range in.Perm {
+				recs2 = append(recs2, recs[i])
+			}
+			rt2, e2, p2 = c05BuildRecs(recs2, in.Hint)
+		} else {
+			rt1, e1, p1 = c05Build(keys, c05Iota(len(keys)))
+			rt2, e2, p2 = c05Build(keys, in.Perm, in.Hint)
+		}
 		obs.BuildErr, obs.BuildPanic = e1+e2, p1+p2
 		if obs.BuildErr != "" || obs.BuildPanic != "" {
 			return obs
@@ -1443,6 +1493,178 @@ func c05GenLong(r *rand.Rand, withArrays bool) c05In {
 	return c05In{Kind: kind, Pats: toBs(keys), Paths: paths, Origin: origin, Flavour: "long"}
 }
 
+// ---------- tables that are ambiguous level after level ----------
+//
+// On every one of d consecutive levels both a literal segment and a ':param' continue: the patterns are (a subset
+// of) the 2^d words over {literal_l, :p_l}, told apart by their last segment or not at all. A path that spells the
+// literals on every level instantiates each of them as far as the tail allows, and the depth-first search has to
+// give up many parameter branches (up to 2^d - 1, far more than the path has bytes or the table has levels) before
+// it reaches the one that matches: whatever the lookup bounds, counts or remembers per path is exceeded here and
+// nowhere in a table where every placeholder is tried once.
+
+var c05AmbigLits = []string{"a", "a", "b", "ab", "v1", "x", "users"}
+var c05AmbigVals = []string{"b", "7", "aa", "x-y", "t", "t0", "a.b", "\xc3\xa9"}
+
+type c05AmbigTab struct {
+	lits  []string // the literal of each level
+	masks []int    // pattern j takes the literal on level l iff bit l of masks[j] is set
+	tails []string // last segment of pattern j ("" = none)
+	keys  []string
+}
+
+func (t c05AmbigTab) key(j int) string {
+	var sb strings.Builder
+	for l, lit := range t.lits {
+		if t.masks[j]&(1<<l) != 0 {
+			sb.WriteString("/" + lit)
+		} else {
+			fmt.Fprintf(&sb, "/:p%d", l)
+		}
+	}
+	if t.tails[j] != "" {
+		sb.WriteString("/" + t.tails[j])
+	}
+	return sb.String()
+}
+
+// c05AmbigTable: d levels; full = all 2^d words, else a random subset of at most limit words that holds the
+// all-parameter and the all-literal word; tailPool = 0: a tail of its own for every pattern, -1: no tail, k > 0:
+// tails t0..t(k-1) shared among the patterns (several patterns match one path: the preference decides).
+func c05AmbigTable(r *rand.Rand, d int, sameLit, full bool, limit, tailPool int) c05AmbigTab {
+	t := c05AmbigTab{}
+	lit := c05AmbigLits[r.Intn(len(c05AmbigLits))]
+	for l := 0; l < d; l++ {
+		if !sameLit {
+			lit = c05AmbigLits[r.Intn(len(c05AmbigLits))]
+		}
+		t.lits = append(t.lits, lit)
+	}
+	all := 1<<d - 1
+	seen := map[int]bool{}
+	add := func(m int) {
+		if !seen[m] {
+			seen[m] = true
+			t.masks = append(t.masks, m)
+		}
+	}
+	if full && 1<<d <= limit {
+		for _, m := range r.Perm(1 << d) {
+			add(m)
+		}
+	} else {
+		add(0)
+		add(all)
+		n := limit/2 + r.Intn(limit/2+1)
+		for tries := 0; len(t.masks) < n && len(t.masks) < 1<<d && tries < 40*limit; tries++ {
+			m := r.Intn(1 << d)
+			if r.Intn(3) == 0 { // mostly literal, a few placeholders: the branches the search visits first
+				m |= r.Intn(1 << d)
+			}
+			add(m)
+		}
+		r.Shuffle(len(t.masks), func(i, j int) { t.masks[i], t.masks[j] = t.masks[j], t.masks[i] })
+	}
+	for j := range t.masks {
+		switch {
+		case tailPool < 0:
+			t.tails = append(t.tails, "")
+		case tailPool == 0:
+			t.tails = append(t.tails, fmt.Sprintf("t%d", j))
+		default:
+			t.tails = append(t.tails, fmt.Sprintf("t%d", r.Intn(tailPool)))
+		}
+	}
+	for j := range t.masks {
+		t.keys = append(t.keys, t.key(j))
+	}
+	return t
+}
+
+// c05AmbigPaths: per pattern the path that spells the literal on every level (+ its tail), instantiations whose
+// values are the level's literal or another word, and paths that nobody matches after the whole search.
+func c05AmbigPaths(r *rand.Rand, t c05AmbigTab, perPat, budget int) (paths []Bs, origin []string) {
+	seen := map[string]bool{}
+	add := func(p, o string) {
+		if !seen[p] && len(paths) < budget {
+			seen[p] = true
+			paths, origin = append(paths, Bs(p)), append(origin, o)
+		}
+	}
+	lits := "/" + strings.Join(t.lits, "/")
+	tail := func(j int) string {
+		if t.tails[j] == "" {
+			return ""
+		}
+		return "/" + t.tails[j]
+	}
+	for _, j := range r.Perm(len(t.masks)) {
+		add(lits+tail(j), "ambig-literals")
+	}
+	for _, j := range r.Perm(len(t.masks)) {
+		for n := 0; n < perPat; n++ {
+			var sb strings.Builder
+			for l, lit := range t.lits {
+				switch {
+				case t.masks[j]&(1<<l) != 0 || r.Intn(2) == 0:
+					sb.WriteString("/" + lit)
+				case r.Intn(8) == 0:
+					sb.WriteString("/" + c05Text(r, false))
+				default:
+					sb.WriteString("/" + c05AmbigVals[r.Intn(len(c05AmbigVals))])
+				}
+			}
+			add(sb.String()+tail(j), "ambig-mixed")
+		}
+	}
+	for n := 0; n < 6; n++ {
+		add(lits+"/"+[]string{"tX", "t", "", "t0/x", "t1#", ":p"}[n], "ambig-nobody")
+		cut := 1 + r.Intn(len(t.lits))
+		add("/"+strings.Join(t.lits[:cut], "/"), "ambig-prefix")
+	}
+	return
+}
+
+func c05GenAmbig(r *rand.Rand, withArrays bool) c05In {
+	d := 3 + r.Intn(4)
+	limit, full := 64, r.Intn(3) > 0
+	if withArrays {
+		limit = 32
+	}
+	if r.Intn(5) == 0 { // deep and sparse: more levels than any bound on the nesting would allow for
+		d, full = 8+r.Intn(5), false
+		limit = 40
+	}
+	tailPool := 0
+	switch r.Intn(6) {
+	case 0:
+		tailPool = -1
+	case 1:
+		tailPool = 1 + r.Intn(4)
+	}
+	t := c05AmbigTable(r, d, r.Intn(2) == 0, full, limit, tailPool)
+	paths, origin := c05AmbigPaths(r, t, 1, 150)
+	kind := "look"
+	if withArrays {
+		kind = "tab"
+	}
+	return c05In{Kind: kind, Pats: toBs(t.keys), Paths: paths, Origin: origin, Flavour: "ambig"}
+}
+
+// c05EnumAmbig: the full tables of 4, 5 and 6 levels over one literal, a tail of its own per pattern.
+func c05EnumAmbig(r *rand.Rand) []any {
+	var out []any
+	for d := 4; d <= 6; d++ {
+		t := c05AmbigTable(r, d, true, true, 64, 0)
+		paths, origin := c05AmbigPaths(r, t, 1, 200)
+		kind := "look"
+		if d == 4 {
+			kind = "tab"
+		}
+		out = append(out, c05In{Kind: kind, Pats: toBs(t.keys), Paths: paths, Origin: origin, Flavour: "ambig"})
+	}
+	return out
+}
+
 // ---------- big tables (the double array outgrows 2^16 cells) and very long keys / paths ----------
 //
 // The lookup keeps (position in the path, node index) of every parameter node it passes, to come back to it.
@@ -1861,6 +2083,15 @@ func c05Decorate(in c05In, i int) c05In {
 		if i%3 == 2 {
 			in.Hint = c05HintChoice(bsList(in.Pats), i/3)
 		}
+		// the caller's []Record is given to Build more than once: every other order case (the second router is
+		// built from a permuted copy made after the first Build), one tab / look case in four (the slice went
+		// through one or two Builds of other routers first)
+		switch {
+		case in.Kind == "order" && i%2 == 0:
+			in.Reuse = 1 + (i/2)%2
+		case in.Kind != "order" && (i/2)%4 == 1:
+			in.Reuse = 1 + (i/8)%2
+		}
 	case "mux":
 		in = c05MuxSpell(c05SubRand(in, i), in)
 	}
@@ -1868,7 +2099,14 @@ func c05Decorate(in c05In, i int) c05In {
 }
 
 func (c05) Gen(r *rand.Rand, tier string, i int) any {
-	return c05Decorate(c05GenBase(r, tier, i), i)
+	in := c05GenBase(r, tier, i)
+	// one case in 20: a table that is ambiguous level after level. It takes the place of the case drawn for this
+	// index and draws from a generator derived from that case, so that every other case of the run is the one it
+	// was before this family existed
+	if i%20 == 8 && in.Flavour != "big" && in.Flavour != "longpath" {
+		in = c05GenAmbig(c05SubRand(in, i), i%40 == 8 || tier == "thorough")
+	}
+	return c05Decorate(in, i)
 }
 
 func c05GenBase(r *rand.Rand, tier string, i int) c05In {
@@ -2176,6 +2414,10 @@ func (c05) Enumerate(tier string) []any {
 			if lo > 0 {
 				in.Hint = c05HintChoice(keys, lo/32-1+ti)
 			}
+			// two chunks of every table: the caller's slice went through one / two earlier Builds
+			if lo == 64 || lo == 160 {
+				in.Reuse = lo / 64
+			}
 			for c := lo; c < lo+32; c++ {
 				ch := string([]byte{byte(c)})
 				for _, p := range []string{"/a/" + ch, "/a/x" + ch + "y", "/a/" + ch + "/1", "/x/" + ch + "a/b", "/" + ch + "c/a", "/" + ch + "/" + ch + "/" + ch} {
@@ -2211,6 +2453,8 @@ func (c05) Enumerate(tier string) []any {
 	out = append(out, c05EnumMux(er)...)
 	// catch-all and single-segment values made of dot segments and their look-alikes
 	out = append(out, c05EnumDots()...)
+	// both a literal and a parameter continue on every one of 4-6 levels: up to 2^d - 1 parameter branches fail
+	out = append(out, c05EnumAmbig(rand.New(rand.NewSource(17)))...)
 	// small-scope exhaustive part: every path up to a length over {a b / : * #} against small tables
 	letters := []byte("ab/:*#")
 	var all func(n int) []string
@@ -2343,6 +2587,9 @@ func (c05) Category(in0 any, obs0 any) (string, bool) {
 			cat += "/static-key-with-reserved-byte"
 			break
 		}
+	}
+	if in.Reuse > 0 {
+		cat += "/records-reused"
 	}
 	if in.Hint != nil {
 		switch m := c05MaxPlaceholders(keys); {
